@@ -18,6 +18,16 @@ WHOLE_READ = ('std::fs::read', 'std::fs::read_to_string', 'std::io::Read::read_t
 PARTIAL_READ = ('read_exact', 'Read::read', 'read_at', 'read_buf', 'take', 'BufRead')
 
 
+def gen_writers(ctx, prog):
+    """GEN_WRITERS with the output writer of the CLI under its actual name (found by role: wiring.output_writer)."""
+    from .. import wiring
+    ow = wiring.output_writer(ctx, prog)
+    for k_ in [k_ for k_ in GEN_WRITERS if GEN_WRITERS[k_][1] == 'cli/src/writer.rs']:
+        del GEN_WRITERS[k_]
+    GEN_WRITERS[ow['mir']] = (ow['name'], 'cli/src/writer.rs')
+    return GEN_WRITERS
+
+
 def run(ctx, rep):
     rep.explanation = ('Idempotence decided on the shape of the two generation-path writers in the resolved program: MIR dominators (read and equality test dominate the '
                        'write; the equal branch cannot reach it), def-use (old file content flows only into the comparison; the compared value is the written value), '
@@ -26,6 +36,8 @@ def run(ctx, rep):
     rep.not_decided = 'multi-run histories: which files a later run is responsible for and stale files of crates that disappeared; the `!output.is_empty()` guard (an empty result leaves an older file in place) is reported as information only.'
     rep.trusted = ['rustc MIR (dominators, moves, resolved callees)', 'std::fs contracts (fs::write / File::create truncate)']
     prog = cg.Program(ctx.mirq('all'))
+    # the output writer is found by role (wiring.output_writer): the table is re-keyed with its actual name
+    gen_writers(ctx, prog)
     c08.w.__wrapped__ = None
     # W1 (who may write)
     sub = core.Report('C17', rep.tier)
@@ -111,7 +123,7 @@ def run(ctx, rep):
             if tgt_true is None:
                 rep.fail('W4', f'{name}:equal-branch', f'{name}: the result of the equality test does not control a branch', site)
                 continue
-            reach = prog.reachable_blocks(b, tgt_true)
+            reach = cg.reachable_blocks_known(b, tgt_true)     # flags set on the way (`matches!` with a guard, `&&`) are remembered
             bad = [wr for wr in writes if wr['bb'] in reach]
             rep.check(not bad, 'W4', f'{name}:equal-branch-skips-write', 'equal content ⇒ no write', f"{name}: the write is still reached when old and new content are equal", site)
         # old content only flows into the comparison
